@@ -171,7 +171,7 @@ class SimLock:
                 raise HarnessError(f"lock {self.name} contended outside simulation")
             self._outside = "outside"
             return True
-        return s.lock_acquire(self._key(), self.name, block)
+        return s.lock_acquire(self._key(), self.name, block, timeout)
 
     def release(self):
         s = WORLD.sched
